@@ -169,6 +169,7 @@ class Model:
                 else:
                     ops.append(('cdisc', s, ns))
                     ops.append(('ev+cdisc', s, ns))
+                    ops.append(('ev-ack-write-fails', s, ns))
                     for b in ('b1', 'b2'):
                         ops.append(('hdr', s, ns, b, 1, 7))
                     ops.append(('hdr', s, ns, 'b2', 0, 9))
@@ -252,6 +253,39 @@ class Model:
             self._expect_dispatch(w, s, ns, name, 9, [1], 'late',
                                   f'{op}: event then DISCONNECT')
             w.conn.pop((s, ns), None)
+        elif kind == 'ev-ack-write-fails':
+            # fault: the transport write of the ACK raises once.  The
+            # handler has run once; afterwards this client and every other
+            # one are served as before (the probe that follows checks it)
+            _, s, ns = op
+            name = 'fn' if (ns == '/' or self.layout == 1) else 'zz'
+            w.script['ret'] = 'r'
+            real = w.sio.eio.send
+            state = {'n': 0}
+            if w.is_async:
+                async def send(*a, **k):
+                    state['n'] += 1
+                    if state['n'] == 1:
+                        raise OSError('scripted transport write fault')
+                    return await real(*a, **k)
+            else:
+                def send(*a, **k):
+                    state['n'] += 1
+                    if state['n'] == 1:
+                        raise OSError('scripted transport write fault')
+                    return real(*a, **k)
+            w.sio.eio.send = send
+            try:
+                w.recv_packet(w.slot[s], 2, ns, 9, [name, 1])
+            finally:
+                w.sio.eio.send = real
+            del w.task_errors[:]
+            if w.is_async:
+                w.loop.collect_errors()
+            log = [e for e in w.take_log() if e != ('h-done',)]
+            if len(log) != 1 or state['n'] != 1:
+                self._bad(w, 'handler', f'{op}: handler log {log!r}, '
+                          f'{state["n"]} transport writes')
         elif kind == 'loss':
             _, s = op
             w.lose(w.slot[s])
